@@ -21,6 +21,14 @@ def pow_case(rng, w, n, signed):
     c = rng.randrange(12)
     if c == 0:
         return "tiny-base-huge-exp", rng.choice([0, 1, M - 1, 2, M - 2]), rng.choice([0, 1, 2, 3, W - 1, W, W + 1, (1 << 32) - 1, (1 << 32) - 2, (1 << 31), rng.randrange(1 << 32)])
+    if c == 1:
+        # +-2^k bases with exponents such that k*e wraps around 2^32 (u32 exponent arithmetic)
+        k = rng.choice([1, 2, 3, 4, 8, 16, 31, 32, rng.randrange(1, W)])
+        b = (1 << k) % M
+        if signed and rng.random() < 0.5:
+            b = pat(-(1 << k), W)
+        e = rng.choice([(1 << 32) // k, (1 << 32) // k + 1, (1 << 31), (1 << 30), (1 << 28) + 1, (1 << 29) + 2, 0xAAAAAAAB, (1 << 32) - 1, W // k, W // k + 1, max(0, W // k - 1)])
+        return "pow2base-huge-exp", b, min(e, (1 << 32) - 1)
     if c <= 5:
         e = rng.choice([2, 3, 4, 5, 7, 8, 15, 16, 31, rng.randrange(2, max(3, W))])
         lim = H if signed else M
@@ -86,6 +94,18 @@ def gen(rng, tier):
                 for mode in ("dbg", "rel"):
                     yield f"ilog2 {s}{cfg} {mode} {hx(a)}", t
                     yield f"ilog10 {s}{cfg} {mode} {hx(a)}", t
+    # every bit length: 2^b - 1 and 2^(b-1) (logarithm estimates from the bit length go wrong only at a few lengths)
+    for cfg in (["64x16", "8x40"] if tier != "thorough" else ["64x16", "64x128", "8x40", "32x10"]):
+        w, n = wn(cfg)
+        W = w * n
+        for b in range(1, W + 1):
+            for x in ((1 << b) - 1, 1 << (b - 1)):
+                yield f"checked_ilog10 u{cfg} {hx(x)}", "all-bit-lengths"
+                if b < W:
+                    yield f"checked_ilog10 i{cfg} {hx(x)}", "all-bit-lengths"
+            if b % 7 == 0:
+                yield f"checked_ilog u{cfg} {hx((1 << b) - 1)} {hx(rng.choice([3, 7, 10, 100, 1000]))}", "all-bit-lengths"
+                yield f"checked_ilog2 u{cfg} {hx((1 << b) - 1)}", "all-bit-lengths"
     if tier == "thorough":
         for s in "ui":
             for a in range(256):
